@@ -16,10 +16,18 @@ def run(ctx):
     ctx.assumptions += ["GPU devices are anonymous to the scheduler: exclusivity = whole devices + open groups <= GPU count",
                         "node-level accounting state machine is covered by the NodeAcct stage (st_nodeacct) when present"]
     st_clustermodel.run_stage(ctx, PREFIXES, thorough=not ctx.quick)
-    n = 240 if ctx.quick else 6000
+    n = 600 if ctx.quick else 8000
     st_cluster.run_stage(ctx, PREFIXES, [("fraction", n // 2), ("mixed", n // 4), ("sharers", n // 4)])
     if os.path.exists(os.path.join(os.path.dirname(__file__), "st_nodeacct.READY")):
         import st_nodeacct
         st_nodeacct.run_stage(ctx, ["C02_"])
     if not ctx.quick:
         st_fixtures.run_stage(ctx, PREFIXES)
+
+
+def replay(ctx, obj):
+    if obj.get("replay", {}).get("module") != st_cluster.MODULE:
+        import st_nodeacct
+        st_nodeacct.replay_stage(ctx, obj, PREFIXES)
+        return
+    st_cluster.replay_stage(ctx, obj, PREFIXES)
